@@ -57,13 +57,14 @@ type outReq struct {
 type issuerSet struct {
 	seed           int64
 	t3w            map[string]*t3World
-	keyIDLen       int  // != 0: requests are created with a key id argument of this length (kind OddKeyID)
-	plainAddOrigin bool // type 3: the origin is registered through AddOrigin instead of AddOriginWithIndexKey
-	scalarForm     int  // type 3: which encoding of the client secret / request blind an honest run uses (0: reduced 48-byte scalars)
-	withBlinds     bool // requests are created through the ...WithBlind(s) entry points
-	saltLen        int  // type 2: >= 0: caller-supplied salt of this length (kind OddSalt)
-	zeroBlindLen   int  // length of that first blind (32: the zero scalar; other lengths: malformed)
-	zeroBlind      bool // type 5: the request is created with caller-supplied blinds, the first of them zero (kind ZeroBlind)
+	keyIDLen       int    // != 0: requests are created with a key id argument of this length (kind OddKeyID)
+	plainAddOrigin bool   // type 3: the origin is registered through AddOrigin instead of AddOriginWithIndexKey
+	scalarForm     int    // type 3: which encoding of the client secret / request blind an honest run uses (0: reduced 48-byte scalars)
+	withBlinds     bool   // requests are created through the ...WithBlind(s) entry points
+	saltLen        int    // type 2: >= 0: caller-supplied salt of this length (kind OddSalt)
+	zeroBlindLen   int    // length of that first blind (32: the zero scalar; other lengths: malformed)
+	zeroBlindForm  string // "order", "top", "order-top": non-canonical encodings of the zero blind (type 5)
+	zeroBlind      bool   // type 5: the request is created with caller-supplied blinds, the first of them zero (kind ZeroBlind)
 	// one client object per token type, constructed once and used for every
 	// request of a run (clients are meant to be long-lived objects)
 	c1 *type1.BasicPrivateClient
@@ -228,6 +229,9 @@ func (s *issuerSet) create(t, n int, key string, challenge []byte, nonces [][]by
 			st, err = s.client5().CreateTokenRequestWithBlinds(challenge, nonces, keyIDArg, iss.TokenKey(), blinds)
 		} else if s.zeroBlind {
 			blinds := [][]byte{make([]byte, s.zeroBlindLen)}
+			if s.zeroBlindForm != "" { // another ENCODING of the zero scalar: the group order, the top bit, both
+				blinds[0] = detBlind(s.seed, 5, "zero-"+s.zeroBlindForm)
+			}
 			for i := 1; i < len(nonces); i++ {
 				blinds = append(blinds, detBlind(s.seed, 5, fmt.Sprintf("zb%d", i)))
 			}
@@ -462,6 +466,9 @@ func execRun(c *ctx, in ev) ev {
 	s.zeroBlindLen = 32
 	if l, ok := mut["len"]; ok && s.zeroBlind {
 		s.zeroBlindLen = jInt(l)
+	}
+	if f, ok := mut["form"].(string); ok && s.zeroBlind {
+		s.zeroBlindForm = f
 	}
 	mkNonces := func() [][]byte {
 		ns := [][]byte{}
@@ -2090,6 +2097,10 @@ func genIssuance(c *ctx, emit func(ev)) {
 					run(1, 1, 16, 0, ev{"kind": "ZeroBlind", "len": 48})
 					run(5, 1, 16, 0, ev{"kind": "ZeroBlind"})
 					run(5, 3, 16, 0, ev{"kind": "ZeroBlind"})
+					for _, f := range []string{"order", "top", "order-top"} {
+						run(5, 1, 16, 0, ev{"kind": "ZeroBlind", "form": f})
+						run(5, 2, 16, 0, ev{"kind": "ZeroBlind", "form": f})
+					}
 					for _, bl := range []int{0, 31, 33} { // malformed first blind
 						run(5, 2, 16, 0, ev{"kind": "ZeroBlind", "len": bl})
 					}
